@@ -355,3 +355,287 @@ theorem err_none_of_final (h : List (Call F32)) (hnr : ∀ c ∈ h, Spec.Protoco
     cases this
 
 end Ivg.Selectors
+
+/-! # Renderer: Reset forgets (C17, Renderer clause)
+
+(Kept in this file because it shares the Renderer case analyses above.)
+
+`Renderer.reset` re-initialises every field except the target rectangle `r` (set by SetRasterizer),
+`disabled`, `fill` and the rasteriser's pen (`penX/penY/firstX/firstY`).  Those four survive a Reset
+but are dead: `StartPath` rewrites `disabled`; when the path is enabled it also rewrites `fill` and
+(via the rasteriser's Reset/MoveTo) the pen; when it is disabled nothing is emitted until the next
+`StartPath`.  Drawing calls outside a path would read them — such programs are excluded
+(`WellBracketed`), as the Encoder's protocol and the decoder exclude them. -/
+namespace Ivg.RendererReset
+set_option linter.constructorNameAsVariable false
+set_option linter.unusedSectionVars false
+open Ivg Ivg.Ren
+
+section
+variable {α β : Type} [Arith α] [Arith β] [Wide α β]
+
+/-- the state with the fields a Reset does not touch (other than the target `r`) blanked -/
+def shared (z : Renderer α β) : Renderer α β :=
+  { z with disabled := false, fill := .flat ⟨0, 0, 0, 0⟩, penX := zeroA, penY := zeroA,
+           firstX := zeroA, firstY := zeroA }
+
+def EqS (z₁ z₂ : Renderer α β) : Prop := shared z₁ = shared z₂
+def EqD (z₁ z₂ : Renderer α β) : Prop :=
+  shared z₁ = shared z₂ ∧ z₁.disabled = z₂.disabled ∧ (z₁.disabled = false → z₁ = z₂)
+
+def upd (z : Renderer α β) (d : Bool) (f : Paint β) (a b c e : α) : Renderer α β :=
+  { z with disabled := d, fill := f, penX := a, penY := b, firstX := c, firstY := e }
+
+theorem initGradient_upd (z : Renderer α β) (d : Bool) (f : Paint β) (a b c e : α) (rgba : RGBA) :
+    (upd z d f a b c e).initGradient rgba = z.initGradient rgba := rfl
+omit [Arith α] [Arith β] [Wide α β] in
+theorem upd_proj (z : Renderer α β) (d : Bool) (f : Paint β) (a b c e : α) :
+    (upd z d f a b c e).cReg = z.cReg ∧ (upd z d f a b c e).cSel = z.cSel ∧ (upd z d f a b c e).r = z.r ∧
+    (upd z d f a b c e).lod0 = z.lod0 ∧ (upd z d f a b c e).lod1 = z.lod1 ∧ (upd z d f a b c e).fill = f :=
+  ⟨rfl, rfl, rfl, rfl, rfl, rfl⟩
+
+theorem startPath_upd (z : Renderer α β) (d : Bool) (f : Paint β) (a b c e : α) (adj : UInt8) (x y : α) :
+    ((upd z d f a b c e).startPath adj x y).2 = (z.startPath adj x y).2 ∧
+    EqD ((upd z d f a b c e).startPath adj x y).1 (z.startPath adj x y).1 := by
+  unfold Renderer.startPath
+  simp only [initGradient_upd, (upd_proj z d f a b c e).1, (upd_proj z d f a b c e).2.1,
+    (upd_proj z d f a b c e).2.2.1, (upd_proj z d f a b c e).2.2.2.1, (upd_proj z d f a b c e).2.2.2.2.1,
+    (upd_proj z d f a b c e).2.2.2.2.2]
+  generalize z.cReg.get6 (z.cSel - adj) = flat
+  by_cases h1 : flat.validPremul = true
+  · simp only [h1, if_true]
+    split
+    · exact ⟨rfl, rfl, rfl, fun h => by simp_all⟩
+    · exact ⟨rfl, rfl, rfl, fun _ => rfl⟩
+  · simp only [h1]
+    by_cases h2 : flat.validGradient = true
+    · simp only [h2, if_true]
+      cases hg : z.initGradient flat with
+      | none =>
+        simp only [Bool.false_eq_true, if_false, Bool.true_or, if_true]
+        exact ⟨trivial, rfl, rfl, fun h => by simp at h⟩
+      | some g =>
+        simp only [Bool.false_eq_true, if_false]
+        split
+        · exact ⟨rfl, rfl, rfl, fun h => by simp_all⟩
+        · exact ⟨rfl, rfl, rfl, fun _ => rfl⟩
+    · simp only [h2, Bool.false_eq_true, if_false, Bool.true_or, if_true]
+      exact ⟨trivial, rfl, rfl, fun h => by simp at h⟩
+
+omit [Arith β] [Wide α β] in
+theorem eq_upd_of_shared (z₁ z₂ : Renderer α β) (h : shared z₁ = shared z₂) :
+    z₁ = upd z₂ z₁.disabled z₁.fill z₁.penX z₁.penY z₁.firstX z₁.firstY := by
+  rcases z₁ with ⟨r, sx, bx, sy, by_, vb, pal, l0, l1, cs, ns, dis, pst, psx, psy, fill, cr, nr, px, py, fx, fy⟩
+  rcases z₂ with ⟨r', sx', bx', sy', by', vb', pal', l0', l1', cs', ns', dis', pst', psx', psy', fill', cr', nr', px', py', fx', fy'⟩
+  simp only [shared, Renderer.mk.injEq] at h
+  simp only [upd, Renderer.mk.injEq]
+  simp_all
+
+def isDraw : Call α → Bool
+  | .closeEnd | .d1 _ _ | .d2 _ _ _ | .d4 _ _ _ _ _ | .d6 _ _ _ _ _ _ _ | .arc _ _ _ _ _ _ _ _ => true
+  | _ => false
+
+/-- in a path that is not being drawn nothing happens -/
+theorem step_disabled (arc : ArcFn α β) (posInf : α) (z : Renderer α β) (hd : z.disabled = true) (c : Call α)
+    (hc : isDraw c = true) : z.step arc posInf c = (z, []) := by
+  cases c with
+  | closeEnd => simp [Renderer.step, hd]
+  | d1 v x => cases v <;> simp [Renderer.step, hd]
+  | d2 v x y => cases v <;> simp [Renderer.step, hd]
+  | d4 v a b x y => cases v <;> simp [Renderer.step, hd]
+  | d6 v a b c d x y => cases v <;> simp [Renderer.step, hd]
+  | arc rel rx ry rot la sw x y => cases rel <;> simp [Renderer.step, hd]
+  | _ => cases hc
+
+/-- the bracketing part of the call protocol: `some inPath'` if the call is allowed -/
+def pathStep : Bool → Call α → Option Bool
+  | _, .reset _ _ => some false
+  | false, .setCSel _ => some false
+  | false, .setNSel _ => some false
+  | false, .setCReg _ _ _ => some false
+  | false, .setNReg _ _ _ => some false
+  | false, .setLOD _ _ => some false
+  | false, .startPath _ _ _ => some true
+  | true, .closeEnd => some false
+  | true, .d1 _ _ => some true
+  | true, .d2 _ _ _ => some true
+  | true, .d4 _ _ _ _ _ => some true
+  | true, .d6 _ _ _ _ _ _ _ => some true
+  | true, .arc _ _ _ _ _ _ _ _ => some true
+  | _, _ => none
+
+/-- every styling call and StartPath is outside a path, every drawing call inside one -/
+def WellBracketed : Bool → List (Call α) → Prop
+  | _, [] => True
+  | b, c :: cs => match pathStep b c with
+    | some b' => WellBracketed b' cs
+    | none => False
+
+/-- the relation kept between the two Renderers -/
+def Rel : Bool → Renderer α β → Renderer α β → Prop
+  | false => EqS
+  | true => EqD
+
+theorem rel_shared {b : Bool} {z₁ z₂ : Renderer α β} (h : Rel b z₁ z₂) : shared z₁ = shared z₂ := by
+  cases b
+  · exact h
+  · exact h.1
+
+theorem rel_refl (b : Bool) (z : Renderer α β) : Rel b z z := by
+  cases b
+  · exact rfl
+  · exact ⟨rfl, rfl, fun _ => rfl⟩
+
+theorem step_rel (arc : ArcFn α β) (posInf : α) (b b' : Bool) (z₁ z₂ : Renderer α β) (c : Call α)
+    (hr : Rel b z₁ z₂) (hc : pathStep b c = some b') :
+    (z₁.step arc posInf c).2 = (z₂.step arc posInf c).2 ∧
+    Rel b' (z₁.step arc posInf c).1 (z₂.step arc posInf c).1 := by
+  have hs := eq_upd_of_shared z₁ z₂ (rel_shared hr)
+  cases b with
+  | false =>
+    cases c <;> simp only [pathStep, Option.some.injEq, reduceCtorEq] at hc <;> subst hc
+    case startPath adj x y => rw [hs]; exact startPath_upd z₂ _ _ _ _ _ _ adj x y
+    case setCReg adj incr c => rw [hs]; cases incr <;> exact ⟨rfl, rfl⟩
+    case setNReg adj incr c => rw [hs]; cases incr <;> exact ⟨rfl, rfl⟩
+    all_goals (rw [hs]; exact ⟨rfl, rfl⟩)
+  | true =>
+    cases c <;> simp only [pathStep, Option.some.injEq, reduceCtorEq] at hc <;> subst hc
+    case reset vb pal => rw [hs]; exact ⟨rfl, rfl⟩
+    case closeEnd =>
+      obtain ⟨h1, h2, h3⟩ := hr
+      cases hd : z₁.disabled with
+      | false => rw [h3 hd]; exact ⟨rfl, rel_refl _ _⟩
+      | true =>
+        rw [step_disabled arc posInf z₁ hd _ rfl, step_disabled arc posInf z₂ (h2 ▸ hd) _ rfl]
+        exact ⟨rfl, h1⟩
+    all_goals
+      obtain ⟨h1, h2, h3⟩ := hr
+      cases hd : z₁.disabled with
+      | false => rw [h3 hd]; exact ⟨rfl, rel_refl _ _⟩
+      | true =>
+        rw [step_disabled arc posInf z₁ hd _ rfl, step_disabled arc posInf z₂ (h2 ▸ hd) _ rfl]
+        exact ⟨rfl, h1, h2, h3⟩
+
+
+theorem run_cons_snd (arc : ArcFn α β) (posInf : α) (z : Renderer α β) (c : Call α) (cs : List (Call α)) :
+    (z.run arc posInf (c :: cs)).2 = (z.step arc posInf c).2 ++ ((z.step arc posInf c).1.run arc posInf cs).2 := rfl
+
+theorem run_rel (arc : ArcFn α β) (posInf : α) (B : List (Call α)) :
+    ∀ (b : Bool) (z₁ z₂ : Renderer α β), Rel b z₁ z₂ → WellBracketed b B →
+      (z₁.run arc posInf B).2 = (z₂.run arc posInf B).2 ∧
+      shared (z₁.run arc posInf B).1 = shared (z₂.run arc posInf B).1 := by
+  induction B with
+  | nil => intro b z₁ z₂ hr _; exact ⟨rfl, rel_shared hr⟩
+  | cons c B ih =>
+    intro b z₁ z₂ hr hw
+    simp only [WellBracketed] at hw
+    cases hc : pathStep b c with
+    | none => rw [hc] at hw; exact hw.elim
+    | some b' =>
+      rw [hc] at hw
+      have hs := step_rel arc posInf b b' z₁ z₂ c hr hc
+      have hi := ih b' _ _ hs.2 hw
+      rw [run_cons_snd, run_cons_snd, Selectors.renderer_run_cons, Selectors.renderer_run_cons, hs.1, hi.1]
+      exact ⟨rfl, hi.2⟩
+
+theorem reset_eqS (posInf : α) (z₁ z₂ : Renderer α β) (hr : z₁.r = z₂.r) (vb : ViewBox α) (pal : Palette) :
+    shared (z₁.reset posInf vb pal) = shared (z₂.reset posInf vb pal) := by
+  simp only [Renderer.reset, Renderer.recalcTransform, shared, hr]
+
+theorem foldl_pen_r (ops : List (RasterOp α β)) (z : Renderer α β) :
+    (ops.foldl (fun (z : Renderer α β) op => match op with
+      | .lineTo x y => { z with penX := x, penY := y }
+      | .cubeTo _ _ _ _ x y => { z with penX := x, penY := y }
+      | _ => z) z).r = z.r := by
+  induction ops generalizing z with
+  | nil => rfl
+  | cons op ops ih =>
+    rw [List.foldl_cons, ih]
+    cases op <;> rfl
+
+/-- every call leaves the target rectangle alone -/
+theorem step_r (arc : ArcFn α β) (posInf : α) (z : Renderer α β) (c : Call α) :
+    (z.step arc posInf c).1.r = z.r := by
+  cases c with
+  | reset vb pal => rfl
+  | setCSel v => rfl
+  | setNSel v => rfl
+  | setCReg adj incr c => cases incr <;> rfl
+  | setNReg adj incr f => cases incr <;> rfl
+  | setLOD l0 l1 => rfl
+  | startPath adj x y =>
+    unfold Renderer.step Renderer.startPath
+    simp only []
+    repeat' split
+    all_goals rfl
+  | closeEnd => simp only [Renderer.step]; split <;> rfl
+  | d1 v x => cases v <;> (simp only [Renderer.step]; split <;> rfl)
+  | d2 v x y => cases v <;> (simp only [Renderer.step]; split <;> rfl)
+  | d4 v a b x y => cases v <;> (simp only [Renderer.step]; split <;> rfl)
+  | d6 v a b c d x y => cases v <;> (simp only [Renderer.step]; split <;> rfl)
+  | arc rel rx ry rot la sw x y =>
+    simp only [Renderer.step]
+    split
+    · rfl
+    · exact foldl_pen_r _ _
+
+
+theorem run_r (arc : ArcFn α β) (posInf : α) (z : Renderer α β) (cs : List (Call α)) :
+    (z.run arc posInf cs).1.r = z.r := by
+  induction cs generalizing z with
+  | nil => rfl
+  | cons c cs ih => rw [Selectors.renderer_run_cons, ih, step_r]
+
+/-- C17, Renderer clause.  Two Renderers drawing into the same target (`r`, set by SetRasterizer), in
+    ANY two states, make the same rasteriser calls from a Reset on, for every well-bracketed
+    program `B`; and their states agree afterwards on every field that Reset initialises. -/
+theorem renderer_reset_forgets (arc : ArcFn α β) (posInf : α) (z₁ z₂ : Renderer α β) (hr : z₁.r = z₂.r)
+    (vb : ViewBox α) (pal : Palette) (B : List (Call α)) (hB : WellBracketed false B) :
+    (z₁.run arc posInf (.reset vb pal :: B)).2 = (z₂.run arc posInf (.reset vb pal :: B)).2 ∧
+    shared (z₁.run arc posInf (.reset vb pal :: B)).1 = shared (z₂.run arc posInf (.reset vb pal :: B)).1 := by
+  have h := run_rel arc posInf B false (z₁.reset posInf vb pal) (z₂.reset posInf vb pal)
+    (reset_eqS posInf z₁ z₂ hr vb pal) hB
+  rw [run_cons_snd, run_cons_snd, Selectors.renderer_run_cons, Selectors.renderer_run_cons]
+  exact ⟨congrArg _ h.1, h.2⟩
+
+/-- … in particular whatever was decoded before (`A`, any call sequence, well-bracketed or not, ending
+    mid-path, with registers, selectors, LOD and smooth-curve state dirtied): reusing the Renderer
+    gives the rasteriser calls of a Renderer `z` that has not seen `A`. -/
+theorem renderer_reuse (arc : ArcFn α β) (posInf : α) (z : Renderer α β) (A : List (Call α))
+    (vb : ViewBox α) (pal : Palette) (B : List (Call α)) (hB : WellBracketed false B) :
+    ((z.run arc posInf A).1.run arc posInf (.reset vb pal :: B)).2 = (z.run arc posInf (.reset vb pal :: B)).2 :=
+  (renderer_reset_forgets arc posInf _ z (run_r arc posInf z A) vb pal B hB).1
+
+open Spec.Protocol in
+theorem checkAdj_ok (adj : UInt8) (incr : Bool) (ok : PState) (h : (checkAdj adj incr ok).isFailed = false) :
+    checkAdj adj incr ok = ok := by
+  unfold checkAdj at h ⊢
+  split
+  · simp_all [PState.isFailed]
+  · split
+    · simp_all [PState.isFailed]
+    · rfl
+
+open Spec.Protocol in
+/-- a sequence that respects the Encoder's call protocol is well bracketed -/
+theorem wellBracketed_of_violationFree (B : List (Call α)) :
+    ∀ b : Bool, ViolationFree (if b then .drawing else .styling) (B.map classifyCall) → WellBracketed b B := by
+  induction B with
+  | nil => intro _ _; trivial
+  | cons c B ih =>
+    intro b hv
+    have h1 : (pstep (if b then .drawing else .styling) (classifyCall c)).isFailed = false :=
+      hv [classifyCall c] ⟨B.map classifyCall, rfl⟩
+    have h2 : ViolationFree (pstep (if b then .drawing else .styling) (classifyCall c)) (B.map classifyCall) :=
+      fun p hp => hv (classifyCall c :: p) (List.cons_prefix_cons.mpr ⟨rfl, hp⟩)
+    simp only [WellBracketed]
+    cases b <;> cases c <;>
+      simp only [classifyCall, pstep, PState.isFailed, pathStep, Bool.false_eq_true, if_false, if_true,
+        reduceCtorEq] at h1 h2 ⊢
+    all_goals first
+      | exact ih false h2
+      | exact ih true h2
+      | (rw [checkAdj_ok _ _ _ h1] at h2; first | exact ih false h2 | exact ih true h2)
+
+end
+end Ivg.RendererReset
